@@ -4280,7 +4280,7 @@ def SIR_effective_degree_from_graph(G, tau, gamma, initial_infecteds=None,
     R0 = 0
 
     if initial_infecteds is not None:
-        status = _initialize_node_status_(G, initial_infecteds)
+        status = _initialize_node_status_(G, initial_infecteds, initial_recovereds)
         for node in G.nodes():
             s = sum(1 for nbr in G.neighbors(node) if status[nbr] == 'S')
             i = sum(1 for nbr in G.neighbors(node) if status[nbr] == 'I')
